@@ -1080,6 +1080,8 @@ from mlmverif.selfcheck import B, OK  # noqa: E402
 _S = 'chainables/courier_server.py'
 _U = 'utils/courier_utils.py'
 VARIANTS = [
+    OK('remote-call-through-a-local-lazy', 'utils/courier_utils.py',
+       '    """Calling a LazyFn records a lazy result of the call."""\n', '    """Calling a LazyFn records a lazy result of the call."""\n    n_args = len(args) + len(kwargs)\n    del n_args\n'),
     B('remote-arguments-by-reference', 'utils/courier_utils.py',
       '    """Calling a LazyFn records a lazy result of the call."""\n', '    """Calling a LazyFn records a lazy result of the call."""\n    args = [a.value if isinstance(a, RemoteObject) else a for a in args]\n', 'R-C14-23'),
     B('makers-keyed-by-the-type-object', 'chainables/lazy_fns.py',
